@@ -86,6 +86,9 @@ class Recorder:
         self.folded = 0
         self.bounds = {}
         self.reach_ok = 0
+        self.n_queries = 0
+        self.n_unsat_fast = 0
+        self.cross = {"agree": 0, "disagree": 0, "no_opinion": 0}
 
     # ---- bookkeeping
     def encoded(self, name, ctx=None, closed=None, seconds=0.0):
@@ -125,13 +128,36 @@ class Recorder:
         r = s.check()
         dt = time.time() - t0
         self.t_solve += dt
-        if str(r) == "unknown":
-            # second opinion: bit-blasting tactic pipeline
-            try:
-                t = z3.Then("simplify", "propagate-values", "solve-eqs", "bit-blast", "sat") if False else None
-            except Exception:
-                t = None
+        self.n_queries += 1
+        # second opinion (thorough tier): a sample of the cheap `unsat` answers is re-decided by the cvc5 binary on z3's SMT-LIB dump
+        if self.tier == "thorough" and str(r) == "unsat" and dt < 3.0:
+            self.n_unsat_fast += 1
+            if self.n_unsat_fast % 15 == 1:
+                self._cross_check(s)
         return str(r), (s.model() if str(r) == "sat" else None), dt
+
+    def _cross_check(self, s):
+        import subprocess
+        import tempfile
+        try:
+            txt = s.to_smt2()
+            with tempfile.NamedTemporaryFile("w", suffix=".smt2", delete=False) as f:
+                f.write(txt)
+                fn = f.name
+            try:
+                out = subprocess.run(["cvc5", "--lang=smt2", "--tlimit=20000", fn], capture_output=True, text=True, timeout=40).stdout.strip().splitlines()
+            finally:
+                os.unlink(fn)
+            ans = out[0].strip() if out else "none"
+        except Exception as e:  # noqa
+            ans = "error"
+        if ans == "unsat":
+            self.cross["agree"] += 1
+        elif ans == "sat":
+            self.cross["disagree"] += 1
+            self.harness_errors.append(f"{self.job}: cvc5 answers sat on a query z3 answered unsat")
+        else:
+            self.cross["no_opinion"] += 1
 
     def reach(self, name, assumptions, extra=True):
         """vacuity guard: assumptions (and the antecedent `extra`) must be satisfiable."""
@@ -218,7 +244,7 @@ class Recorder:
     def dump(self):
         return {k: getattr(self, k) for k in ("job", "obl", "funcs", "violations", "known", "inconclusive", "harness_errors",
                                                "samples", "notes", "validated", "nvars", "encodings", "t_encode", "t_solve",
-                                               "folded", "bounds", "reach_ok")} | {"assumptions": sorted(self.assumptions)}
+                                               "folded", "bounds", "reach_ok", "cross")} | {"assumptions": sorted(self.assumptions)}
 
 
 # --------------------------------------------------------------------------- pool
@@ -330,6 +356,7 @@ def finish(prop, tier, seed, results, t_start, level_text, assumptions=(), extra
         "folded_by_value_sets": sum(r.get("folded", 0) for r in results),
         "reachability_witnesses_sat": sum(r.get("reach_ok", 0) for r in results),
         "solver_seconds": round(sum(r.get("t_solve", 0) for r in results), 2),
+        "cvc5_cross_checks": {k: sum(r.get("cross", {}).get(k, 0) for r in results) for k in ("agree", "disagree", "no_opinion")},
         "encode_seconds": round(sum(r.get("t_encode", 0) for r in results), 2),
         "slowest_queries": [{"job": o["job"], "name": o["name"], "s": o["solver_s"], "result": o["result"]} for o in slow],
         "functions_encoded": funcs,
